@@ -14,7 +14,7 @@ RULE = ("exception codes 0..255 x {read, write, write-multi} x {udp-rtu, tcp} x 
         "(transport, keep-alive, command kind, code, j, delay, entry) tuples")
 ASSUMPTIONS = ["reason texts are the standard Modbus exception names (table copied from the specification into refcodec)",
                "virtual clock: 'at once' means zero virtual time between delivery of the exception frame and the return"]
-MUST = ["compound_call_write_rejected", "public_entry_es", "poll_blocks_rejected_in_turn", "family_level_rejection", "rejected_after_a_request_served_on_retransmission", "public_entry_dt", "named_setting_write", "two_tcp_objects_overlapping", "command_for_another_unit", "tcp_exception_with_wrong_mbap_length", "second_request_rejected", "rejected_after_lone_fragment", "rejected_udp", "rejected_tcp", "after_drops", "delayed_exception", "unknown_code", "public_entry"]
+MUST = ["same_request_rejected_twice_in_a_row", "compound_call_write_rejected", "public_entry_es", "poll_blocks_rejected_in_turn", "family_level_rejection", "rejected_after_a_request_served_on_retransmission", "public_entry_dt", "named_setting_write", "two_tcp_objects_overlapping", "command_for_another_unit", "tcp_exception_with_wrong_mbap_length", "second_request_rejected", "rejected_after_lone_fragment", "rejected_udp", "rejected_tcp", "after_drops", "delayed_exception", "unknown_code", "public_entry"]
 EXHAUSTIVE = {"quick": True, "thorough": True}
 EPS = 1e-6
 
@@ -62,6 +62,19 @@ def scenario_after_retransmission(transport, ka, T, R, kind, code):
     sc["tasks"] = [{"start": 0.0, "steps": [first, sc["tasks"][0]["steps"][0]]}]
     sc["second"] = True
     sc["after_retx"] = True
+    return sc
+
+
+def scenario_same_request_again(transport, ka, T, R, kind, code, gap):
+    """the SAME request is issued twice in a row (an application polling a register the inverter refuses) and refused both times with the same
+    exception frame - on RTU the two frames are byte-identical: the second call is rejected at once like the first"""
+    sc = scenario(transport, ka, T, R, kind, code, 0, 0.0, "protocol")
+    step = sc["tasks"][0]["steps"][0]
+    sc["by_reg"] = {400: [["exc", code, 0.0], ["exc", code, 0.0], ["exc", code, 0.0]]}
+    sc["script"] = []
+    sc["tasks"] = [{"start": 0.0, "steps": [step] + ([["sleep", gap]] if gap else []) + [step]}]
+    sc["second"] = True
+    sc["same_again"] = True
     return sc
 
 
@@ -134,6 +147,8 @@ def check_run(sc, run, part: Part):
             part.count("named_setting_write")
         if sc.get("second"):
             part.count("second_request_rejected")
+        if sc.get("same_again"):
+            part.count("same_request_rejected_twice_in_a_row")
         if sc.get("after_retx"):
             part.count("rejected_after_a_request_served_on_retransmission")
         if sc.get("frag_first"):
@@ -299,7 +314,10 @@ def compound_calls_part(part):
             run = engine.run_custom({("inv0", port): sim}, probe, vtime_cap=600, tx_cap=600)
             if run.stop or run.error is not None:
                 continue            # (a mode this model does not offer, a setting it lacks: not a compound call of this model)
-            writes = [(i, r[2]) for i, r in enumerate(sim.log[st["n0"]:]) if r[2]["kind"] in ("write", "multi")]
+            # (ES: the Modbus READS of a compound call as well - its setters read the current group / register first and act on the answer;
+            #  the ET setters make such reads through the best-effort helper that deliberately maps a refusal to "unknown")
+            kinds = ("write", "multi", "read") if fam == "ES" else ("write", "multi")
+            writes = [(i, r[2]) for i, r in enumerate(sim.log[st["n0"]:]) if r[2]["kind"] in kinds]
             for k, (idx, wreq) in enumerate(writes):
                 code = (6, 3, 4, 1)[k % 4]
                 sim2 = mksim(fam, variant)
@@ -309,7 +327,7 @@ def compound_calls_part(part):
                 orig = sim2.handle
 
                 def handle(req, kind, _o=orig, _key=key, _nth=nth, _seen=seen, _code=code):
-                    if req["kind"] in ("write", "multi") and (rc.fc_of(req), req["reg"]) == _key:
+                    if req["kind"] in ("write", "multi", "read") and (rc.fc_of(req), req["reg"]) == _key:
                         _seen["n"] += 1
                         if _seen["n"] >= _nth + 1:
                             return (rc.tcp_exception if kind == "tcp" else rc.rtu_exception)(req, _code)
@@ -328,7 +346,7 @@ def compound_calls_part(part):
                 run2 = engine.run_custom({("inv0", port): sim2}, flow, vtime_cap=600, tx_cap=600)
                 part.evaluations += 1
                 tr = "udp" if port == 8899 else "tcp"
-                what = f"{fam}.{call[0]}{tuple(str(a) for a in call[1:])}: write #{k + 1} of the sequence ({wreq['kind']} {wreq['reg']}) answered with exception {code}"
+                what = f"{fam}.{call[0]}{tuple(str(a) for a in call[1:])}: request #{k + 1} of the sequence ({wreq['kind']} {wreq['reg']}) answered with exception {code}"
                 if run2.stop or run2.error is not None or res.get("out") != ("RequestRejectedException", rc.reason(code)):
                     part.violate(f"C08/{tr}/not-rejected", f"{what}: ended {res.get('out')} {run2.stop or ''} instead of "
                                  f"RequestRejectedException({rc.reason(code)!r})", {"compound": True})
@@ -377,6 +395,8 @@ def run_shard(spec):
                 for gap, delay in ((0.5 * T, 0.8 * T), (0.25 * T, 0.9 * T), (None, 0.5 * T), (None, 0.0)):
                     run_case(scenario_second(spec["transport"], spec["ka"], T, R, spec["kind"], code, gap, delay), part)
                 run_case(scenario_after_retransmission(spec["transport"], spec["ka"], T, R, spec["kind"], code), part)
+                for gap in (None, 0.5 * T, 3 * T):
+                    run_case(scenario_same_request_again(spec["transport"], spec["ka"], T, R, spec["kind"], code, gap), part)
                 if spec["transport"] == "tcp":
                     for mlen in (6, 11, 0, 2, 4, 255):
                         for j in (0, R):
